@@ -362,6 +362,62 @@ def check_result(case, order, rec, cap, rng):
         rec.violation("result:das", ctx, f"DAS != SAS @ A^T (max {np.abs(das - want).max():.3e})")
 
 
+def check_shared_kmatrix(case, order, rec, rng):
+    """Two datasets of ONE group: d1's megacomplex combines [km1, km2], d2's uses km1 alone.  Evaluated together (as
+    optimize does), each reports the concentrations of ITS OWN K: combining K-matrices for one megacomplex may not
+    change what another megacomplex sees of a matrix they share."""
+    import xarray as xr
+    from glotaran.optimization.optimize import optimize
+    from glotaran.parameter import Parameters
+    from glotaran.project import Scheme
+    from vf.gen.simple import all_builtin_model_class
+
+    if not case["km2"]:
+        return
+    pl, kms = [], {}
+    for name in ("km1", "km2"):
+        m = {}
+        for (a, b), v in case[name]:
+            pl.append([f"{name}_{a}_{b}", float(v), {"vary": name == "km1" and not m}])
+            m[(a, b)] = f"{name}_{a}_{b}"
+        kms[name] = {"matrix": m}
+    jd = dict(zip(case["compartments"], case["j"]))
+    for c in order:
+        pl.append([f"j_{c}", float(jd[c]), {"vary": False}])
+    t = np.asarray(case["times"])
+    g = np.array([1.0, 2.0, 3.0])
+    for first in ("d1", "d2"):
+        names = ["d1", "d2"] if first == "d1" else ["d2", "d1"]
+        mcof = {"d1": "mc_comb", "d2": "mc_plain"}
+        spec = {"megacomplex": {"mc_comb": {"type": "decay", "k_matrix": ["km1", "km2"]}, "mc_plain": {"type": "decay", "k_matrix": ["km1"]}}, "k_matrix": kms,
+                "initial_concentration": {"j1": {"compartments": list(order), "parameters": [f"j_{c}" for c in order], "exclude_from_normalize": list(case["exclude"])}},
+                "dataset_groups": {"default": {"link_clp": False}},
+                "dataset": {n: {"megacomplex": [mcof[n]], "initial_concentration": "j1"} for n in names}}
+        ctx = dict(case, order=order, scenario=f"two datasets in one group, {first} declared first: mc_comb = [km1, km2], mc_plain = [km1]")
+        try:
+            model = all_builtin_model_class()(**spec)
+            data = {n: xr.DataArray(rng.standard_normal((t.size, g.size)), coords=[("time", t), ("spectral", g)]).to_dataset(name="data") for n in names}
+            with time_limit(60):
+                res = optimize(Scheme(model=model, parameters=Parameters.from_list(pl), data=data, maximum_number_function_evaluations=1, add_svd=False), verbose=False, raise_exception=True)
+        except (Exception, CaseTimeout) as e:  # noqa
+            rec.skip(f"shared-K scenario not evaluable: {type(e).__name__}")
+            return
+        rec.count("shared_kmatrix_results_checked")
+        for n, use2 in (("d1", True), ("d2", False)):
+            sub = dict(case, km2=case["km2"] if use2 else [])
+            Kmat, j = reference(sub, order)
+            ok, _ = K.spectrum_ok(Kmat)
+            tol, condV = tolerance(Kmat, j, t)
+            if not ok or condV > 1e8:
+                continue
+            sc = res.data[n]["species_concentration"].sel(species=order).values
+            ref = K.concentrations(Kmat, j, t)
+            if not np.abs(sc - ref).max() <= tol and not np.abs(sc - K.concentrations_mp(Kmat, j, t)).max() <= tol:
+                rec.violation(f"shared-k-matrix:species_concentration:{'combined' if use2 else 'plain'}-megacomplex", ctx,
+                              f"dataset {n}: species_concentration differs from expm(K t) j of its own K by {np.abs(sc - ref).max():.3e}")
+                return
+
+
 # ---------------------------------------------------------------- shards
 def orders_for(case, rng, tier):
     comps = case["compartments"]
@@ -404,6 +460,8 @@ def run_shard(spec, rec):
             check_result(case, orders_for(case, rng, "quick")[-1], rec, cap, rng)
         if i % 3 == 0:
             check_reuse(case, case["compartments"], rec, cap)
+        if case["km2"]:
+            check_shared_kmatrix(case, case["compartments"], rec, rng)
     for i in range(spec["neq"]):
         c = check_equivalence(rng, rec, cap)
         if c:
